@@ -55,6 +55,16 @@ Proof.
     rewrite E, IH, <- app_assoc. reflexivity.
 Qed.
 
+(* ... and they are the turns of the model's attribute loop (Stream.add_attr) *)
+Lemma abs_attr_is_add_attr st a : abs_attr st a = add_attr st a.
+Proof. destruct a as [[n f] v]. reflexivity. Qed.
+
+Lemma abs_attrs_fold : forall attrs st, fold_left abs_attr attrs st = fold_left add_attr attrs st.
+Proof.
+  induction attrs as [|a attrs IH]; intros st; cbn [fold_left]; [reflexivity|].
+  rewrite abs_attr_is_add_attr. apply IH.
+Qed.
+
 (* ---- heap side ------------------------------------------------------------------------------------------ *)
 Section Xml.
   Variable pm : list name -> bool.
@@ -151,7 +161,7 @@ Section Xml.
       destruct (h_attrs_ok attrs _ r1 G1 W1 S1 Hne1) as (r2 & E2 & (G2 & W2 & V2 & X2) & S2 & _).
       exists r2. split; [exact E2|split].
       + split; [auto|split; [auto|split; [congruence|eapply ext_trans; eauto]]].
-      + apply sim_cc. rewrite abs_attrs_push in S2. exact S2.
+      + unfold xstart. apply sim_cc. rewrite abs_attrs_fold in S2. exact S2.
     - destruct (s_stack st) as [|f rest] eqn:Est; [unfold wrap_up; rewrite Est; exact I|].
       apply (h_wrap_up_ok st r f rest Hg Hwf Hsim Est).
     - destruct (s_stack st) as [|f rest] eqn:Est; [exact I|].
